@@ -121,6 +121,7 @@ func NewRenderContext(env *Environment, context map[string]interface{}, engine *
 	ctx.parent = nil
 	ctx.inParentCall = false
 	ctx.sandboxed = false
+	ctx.lastLoadedTemplate = nil
 
 	// Copy the context values directly
 	if context != nil {
